@@ -95,6 +95,13 @@ func ProcChildMain() int {
 		}
 	}
 	amf := refamf.New(sp.Cfg.AMFConfig(), ch, refamf.Fault{At: sp.FaultAt, Kind: sp.FaultKind, AtUplink: sp.FaultAtUp}, func(b []byte) error { _, e := syscall.Write(mine, b); return e }, closeMine)
+	amf.StopReading = func() {
+		fdMu.Lock()
+		defer fdMu.Unlock()
+		if !fdClosed {
+			syscall.Shutdown(mine, syscall.SHUT_RD)
+		}
+	}
 	done := make(chan struct{})
 	go func() {
 		defer close(done)
